@@ -294,6 +294,16 @@ func (h *c02Hist) apply(t *c02Twin, w []string) (res string) {
 	case "hide":
 		return c02Err(f.SetRowVisible(h.sheet(n(1)), n(2), w[3] != "1"))
 	case "get", "iget":
+		if !h.emit {
+			// wide histories: what the public getters say (the hook also shows the stored style of
+			// a cell, which SetRowStyle/SetColStyle may or may not have copied onto a blank cell)
+			sh, cell := h.sheet(n(1)), c02Name(n(2), n(3))
+			v, e1 := f.GetCellValue(sh, cell, xl.Options{RawCellValue: true})
+			fm, e2 := f.GetCellFormula(sh, cell)
+			t, e3 := f.GetCellType(sh, cell)
+			st, e4 := f.GetCellStyle(sh, cell)
+			return fmt.Sprintf("v=%s f=%s t=%d s=%d %v", hx(v), hx(fm), t, st, e1 != nil || e2 != nil || e3 != nil || e4 != nil)
+		}
 		return xl.VerifC02Get(f, h.sheet(n(1)), c02Name(n(2), n(3)))
 	case "vis", "ivis":
 		v, err := f.GetRowVisible(h.sheet(n(1)), n(2))
@@ -635,6 +645,19 @@ func c02Parts(pkg []byte) []string {
 func (h *c02Hist) replay() string { return strings.Join(h.lines, "\n") }
 
 func (h *c02Hist) fail(sig, what string, line int) {
+	if strings.Contains(sig, ":link:") {
+		// hyperlink targets live in the sheet's relationship part: is this the CopySheet-after-link pattern?
+		seenLink := false
+		for _, l := range h.lines {
+			if strings.HasPrefix(l, "link ") {
+				seenLink = true
+			}
+			if strings.HasPrefix(l, "copy ") && seenLink {
+				sig = "twin:link-lost-by-copysheet-unless-saved"
+				break
+			}
+		}
+	}
 	if h.failed[sig] {
 		return
 	}
@@ -655,6 +678,24 @@ func (h *c02Hist) fail(sig, what string, line int) {
 func (h *c02Hist) decoded(sig string, x, y []byte, what string) {
 	px, py := c02Parts(x), c02Parts(y)
 	if strings.Join(px, ",") != strings.Join(py, ",") {
+		onlyRels := true
+		in := func(xs []string, x string) bool {
+			for _, y := range xs {
+				if y == x {
+					return true
+				}
+			}
+			return false
+		}
+		for _, q := range append(append([]string{}, px...), py...) {
+			if (!in(px, q) || !in(py, q)) && !strings.HasPrefix(q, "xl/worksheets/_rels/") {
+				onlyRels = false
+			}
+		}
+		if onlyRels {
+			h.fail(sig+":link:parts", fmt.Sprintf("%s: worksheet relationship parts differ: %v vs %v", what, px, py), 0)
+			return
+		}
 		h.fail(sig+":parts", fmt.Sprintf("%s: part sets differ: %v vs %v", what, px, py), 0)
 		return
 	}
@@ -681,7 +722,7 @@ func (h *c02Hist) decoded(sig string, x, y []byte, what string) {
 
 // freshTwin replays the non-save prefix on a new file and saves it once.
 func (h *c02Hist) freshTwin() []byte {
-	g := &c02Hist{names: nil, kinds: nil, far: map[[3]int]bool{}, failed: map[string]bool{}, r: h.r, maxC: 1, maxR: 1}
+	g := &c02Hist{names: nil, kinds: nil, far: map[[3]int]bool{}, failed: map[string]bool{}, r: h.r, maxC: 1, maxR: 1, emit: h.emit}
 	for i, l := range h.lines {
 		w := strings.Fields(l)
 		if len(w) == 0 || w[0] == "dump" || w[0] == "pkg" {
@@ -1329,6 +1370,13 @@ var c02Witnesses = [][]string{
 		"get 1 2 2", "vis 1 4", "vis 1 5", "reopen", "dump 1", "get 1 4 2", "dump 1"},
 }
 
+// wide witnesses (direct oracles only): a hyperlink set in this session reaches a copy of the
+// sheet only if a save happened in between (copySheet reads the relationship part from File.Pkg,
+// where relsWriter puts it at save time)
+var c02WideWitnesses = [][]string{
+	{"new", "newsheet", "link 1 3 1 l3", "save 0 0", "copy 1 0", "get 0 3 1"},
+}
+
 func runC02(r *Run, rng *Rng, replay string) {
 	r.Rule = "a history counts as non-trivial when it contains at least one save followed by at least one later mutation; distinct = distinct op-line sequences"
 	h := &c02Hist{r: r, far: map[[3]int]bool{}, failed: map[string]bool{}, emit: true}
@@ -1350,6 +1398,12 @@ func runC02(r *Run, rng *Rng, replay string) {
 		c02RunLines(h, wl)
 		r.Stat("history:witness")
 	}
+	for _, wl := range c02WideWitnesses {
+		h.emit = false
+		c02RunLines(h, wl)
+		r.Stat("history:witness")
+	}
+	h.emit = true
 	// malformed op lines: the driver and the harness must both reject them
 	for _, l := range []string{"val 0 1", "bogus 1 2", "save", "get x y z", "craft 0 R.x.0", "fml 0 1 1"} {
 		res := "bad-op"
